@@ -471,10 +471,10 @@ theorem sync_error_is_raised (m : Machine) (u : UEnv) (e : Ev) (s : St) (n : Nat
     (hmax : m.maxIterations = n + 1) (hidle : s.queue = []) (hrun : s.status = "running")
     (he : (syncProcessed m u e { s with queue := [] }).err ≠ none) :
     syncSend m u e s = syncProcessed m u e { s with queue := [] } ∧ (syncSend m u e s).err ≠ none := by
-  have h1 : syncSend m u e s = drainLoop m u (n + 1) { s with queue := [⟨e, false⟩] } := by
-    unfold syncSend sndUnflagged drainFlagged
+  have h1 : syncSend m u e s = drainLoop m u (n + 1 + 1) { s with queue := [⟨e, false⟩] } := by
+    unfold syncSend sndUnflagged drainFlagged drainBudget
     rw [if_pos hrun, hmax, hidle]; rfl
-  have h2 := drainLoop_failed m u n { s with queue := [⟨e, false⟩] } ⟨e, false⟩ [] rfl hrun he
+  have h2 := drainLoop_failed m u (n + 1) { s with queue := [⟨e, false⟩] } ⟨e, false⟩ [] rfl hrun he
   rw [h1, h2]
   exact ⟨rfl, he⟩
 
